@@ -331,7 +331,7 @@ def applies(desc, prop):
     """assertion messages of shared harnesses carry the ids of the properties they express ([C01,C14] ...);
     untagged failures (panics, overflows, index errors inside the real code) count for every property"""
     m = TAGS.search(desc)
-    if not m or prop is None or prop.startswith("STEP"):
+    if not m or prop is None or prop.startswith("STEP") or prop in ("SPLIT", "EXP"):
         return True
     return prop in m.group(1).split(",")
 
